@@ -989,7 +989,9 @@ def _ob_crosscheck_seq(flagname, steps, maxlen):
                 c2 = calls + [{"flags": flags, "crash_point": (None if j is None else int(j)), "death": getattr(j, "death", "kill")}]
                 res = real_sequence({"site": "save_parameters", "steps": steps, "pre": {r: [k] for r, k in zip(ROLES, GOOD)}, "calls": c2})
                 real = tuple(res["states"][-1][r][0] for r in ROLES)
-                if real != t:
+                # 'mixed' (closed, but not one good checkpoint) and 'partial' are the same abstract fact: not a usable checkpoint
+                unusable = lambda k: PARTIAL if k == MIXED else k   # noqa: E731
+                if tuple(map(unusable, real)) != tuple(map(unusable, t)):
                     raise RuntimeError("cross-check: after crash sequence %s ghost=%s real=%s" % ([c["crash_point"] for c in c2], t, real))
                 n += 1
                 if _abs_inv(t):
